@@ -1,0 +1,140 @@
+//go:build verif
+
+package checksumutils
+
+import (
+	"bytes"
+	"context"
+	"crypto/md5"
+	"crypto/sha1"
+	"crypto/sha256"
+	"encoding/base64"
+	"encoding/binary"
+	"encoding/hex"
+	"hash/crc32"
+	"hash/crc64"
+	"io"
+)
+
+// Ghost scenarios for the C35 contracts in zz_contracts_verif.go (see /verif/DESIGN.md). The GF(2) matrix arithmetic of
+// the CRC combination and the goroutine pipeline of the streaming digests are outside what the deductive engine
+// decides; each function below states one law of the property over the REAL code and is the oracle of a BOUNDED random
+// search (it can find a violation; finding none proves nothing).
+
+// verifCombineIsConcatenation: combining the CRCs of x and y with len(y) gives the CRC of x followed by y, for all
+// three CRC variants.
+func verifCombineIsConcatenation(x []byte, y []byte) bool {
+	xy := append(append([]byte{}, x...), y...)
+	be32 := func(v uint32) []byte { b := make([]byte, 4); binary.BigEndian.PutUint32(b, v); return b }
+	be64 := func(v uint64) []byte { b := make([]byte, 8); binary.BigEndian.PutUint64(b, v); return b }
+	if !bytes.Equal(CombineCrc32(be32(crc32.ChecksumIEEE(x)), be32(crc32.ChecksumIEEE(y)), int64(len(y))), be32(crc32.ChecksumIEEE(xy))) {
+		return false
+	}
+	if !bytes.Equal(CombineCrc32c(be32(crc32.Checksum(x, crc32CastagnoliTable)), be32(crc32.Checksum(y, crc32CastagnoliTable)), int64(len(y))), be32(crc32.Checksum(xy, crc32CastagnoliTable))) {
+		return false
+	}
+	return bytes.Equal(CombineCrc64Nvme(be64(crc64.Checksum(x, crc64NvmeTable)), be64(crc64.Checksum(y, crc64NvmeTable)), int64(len(y))), be64(crc64.Checksum(xy, crc64NvmeTable)))
+}
+
+// verifCombineIsAssociative: concatenation is associative, so for ANY CRC values a, b, c and lengths n1, n2 (also far
+// beyond what can be hashed in a test: parts are up to 5 GiB)
+//
+//	combine(combine(a, b, n1), c, n2) == combine(a, combine(b, c, n2), n1 + n2).
+//
+// The combination is linear in its CRC arguments (T^n a + b), so for lengths >= 1 the law holds for arbitrary values,
+// not only for CRCs of data.
+func verifCombineIsAssociative(a uint64, b uint64, c uint64, n1 uint64, n2 uint64) bool {
+	// lengths from 1: with length 0 the second CRC must be the CRC of the empty string (0), which an arbitrary value is not
+	n1, n2 = 1+n1%(1<<40), 1+n2%(1<<40)
+	be32 := func(v uint64) []byte { x := make([]byte, 4); binary.BigEndian.PutUint32(x, uint32(v)); return x }
+	be64 := func(v uint64) []byte { x := make([]byte, 8); binary.BigEndian.PutUint64(x, v); return x }
+	for _, f := range []func([]byte, []byte, int64) []byte{CombineCrc32, CombineCrc32c} {
+		if !bytes.Equal(f(f(be32(a), be32(b), int64(n1)), be32(c), int64(n2)), f(be32(a), f(be32(b), be32(c), int64(n2)), int64(n1+n2))) {
+			return false
+		}
+	}
+	f := CombineCrc64Nvme
+	return bytes.Equal(f(f(be64(a), be64(b), int64(n1)), be64(c), int64(n2)), f(be64(a), f(be64(b), be64(c), int64(n2)), int64(n1+n2)))
+}
+
+// verifCombineZeroLengthIsIdentity: appending nothing changes nothing: combine(a, crc(""), 0) == a.
+func verifCombineZeroLengthIsIdentity(a uint64) bool {
+	be32 := func(v uint64) []byte { x := make([]byte, 4); binary.BigEndian.PutUint32(x, uint32(v)); return x }
+	be64 := func(v uint64) []byte { x := make([]byte, 8); binary.BigEndian.PutUint64(x, v); return x }
+	return bytes.Equal(CombineCrc32(be32(a), be32(0), 0), be32(a)) && bytes.Equal(CombineCrc32c(be32(a), be32(0), 0), be32(a)) &&
+		bytes.Equal(CombineCrc64Nvme(be64(a), be64(0), 0), be64(a))
+}
+
+// verifChunkedReader hands out the bytes of data in reads of the given sizes (cycled; 0 is skipped).
+type verifChunkedReader struct {
+	data  []byte
+	sizes []uint32
+	i     int
+}
+
+func (r *verifChunkedReader) Read(p []byte) (int, error) {
+	if len(r.data) == 0 {
+		return 0, io.EOF
+	}
+	n := len(p)
+	if len(r.sizes) > 0 {
+		s := int(r.sizes[r.i%len(r.sizes)] % (1 << 20))
+		r.i++
+		if s > 0 && s < n {
+			n = s
+		}
+	}
+	if n > len(r.data) {
+		n = len(r.data)
+	}
+	copy(p, r.data[:n])
+	r.data = r.data[n:]
+	return n, nil
+}
+
+// verifStreamingEqualsOneShot: the streaming digests of a body delivered in arbitrary read sizes to a consumer that
+// reads with an arbitrary buffer size equal the one-shot digests of the same bytes (MD5 as ETag, CRC32, CRC32C,
+// CRC64NVME, SHA-1, SHA-256), and the reported size is the number of bytes.
+func verifStreamingEqualsOneShot(seed []byte, repeat uint16, reads []uint32, consumerBuf uint32) bool {
+	// a deterministic pseudo-random body of up to 3 MiB derived from the generated values
+	data := make([]byte, (int(repeat)*977+len(seed)*131)%(3<<20))
+	state := uint32(2463534242) + uint32(repeat)
+	for _, b := range seed {
+		state = state*31 + uint32(b)
+	}
+	for i := range data {
+		state ^= state << 13
+		state ^= state >> 17
+		state ^= state << 5
+		data[i] = byte(state)
+	}
+	bufSize := 1 + int(consumerBuf%(1<<20))
+	size, sums, err := CalculateChecksumsStreaming(context.Background(), &verifChunkedReader{data: data, sizes: reads}, func(r io.Reader) error {
+		buf := make([]byte, bufSize)
+		for {
+			_, err := r.Read(buf)
+			if err == io.EOF {
+				return nil
+			}
+			if err != nil {
+				return err
+			}
+		}
+	})
+	if err != nil || size == nil || sums == nil || *size != int64(len(data)) {
+		return false
+	}
+	md5Sum := md5.Sum(data)
+	sha1Sum := sha1.Sum(data)
+	sha256Sum := sha256.Sum256(data)
+	c32 := make([]byte, 4)
+	binary.BigEndian.PutUint32(c32, crc32.ChecksumIEEE(data))
+	c32c := make([]byte, 4)
+	binary.BigEndian.PutUint32(c32c, crc32.Checksum(data, crc32CastagnoliTable))
+	c64 := make([]byte, 8)
+	binary.BigEndian.PutUint64(c64, crc64.Checksum(data, crc64NvmeTable))
+	eq := func(p *string, want string) bool { return p != nil && *p == want }
+	return eq(sums.ETag, "\""+hex.EncodeToString(md5Sum[:])+"\"") && eq(sums.ChecksumCRC32, base64.StdEncoding.EncodeToString(c32)) &&
+		eq(sums.ChecksumCRC32C, base64.StdEncoding.EncodeToString(c32c)) && eq(sums.ChecksumCRC64NVME, base64.StdEncoding.EncodeToString(c64)) &&
+		eq(sums.ChecksumSHA1, base64.StdEncoding.EncodeToString(sha1Sum[:])) && eq(sums.ChecksumSHA256, base64.StdEncoding.EncodeToString(sha256Sum[:]))
+}
